@@ -250,6 +250,9 @@ pub enum GcPolicy {
     Bernoulli { seed: u64, per_mille: u32 },
 }
 
+/// Upper bound on collections injected by one installed schedule.
+pub const MAX_INJECTED_COLLECTIONS: u64 = 10_000;
+
 pub struct GcInstall {
     pub fired: Rc<Cell<u64>>,
     pub points: Rc<Cell<u64>>,
@@ -268,7 +271,8 @@ pub fn install_gc(policy: &GcPolicy) -> GcInstall {
         GcPolicy::EveryK(k) => boa_gc::verif::set_policy(Some(Box::new(move |_| {
             let i = p.get();
             p.set(i + 1);
-            let hit = k > 0 && i % k == 0;
+            // bounded cost: a runaway program under "collect at every allocation" is quadratic
+            let hit = k > 0 && i % k == 0 && f.get() < MAX_INJECTED_COLLECTIONS;
             if hit {
                 f.set(f.get() + 1);
             }
@@ -278,7 +282,7 @@ pub fn install_gc(policy: &GcPolicy) -> GcInstall {
             let mut rng = crate::rng::Rng::new(seed);
             boa_gc::verif::set_policy(Some(Box::new(move |_| {
                 p.set(p.get() + 1);
-                let hit = rng.below(1000) < u64::from(per_mille);
+                let hit = rng.below(1000) < u64::from(per_mille) && f.get() < MAX_INJECTED_COLLECTIONS;
                 if hit {
                     f.set(f.get() + 1);
                 }
